@@ -144,9 +144,10 @@ def c02(tier, seed, wd, replay):
             "NoDupMembers, NoDupUnis on the real post-state and the insertion-order / atomic-raise action clauses on "
             "(pre, post); class = call x membership/aliasing pattern; non-trivial = state changed or call raised")
     quick = [ST.cfg("unis-1v2u", **{**UNI, "NV": 1}), ST.cfg("unis-2v1u", **{**UNI, "NU": 1, "NLaw": 1})]
+    # (3 vertices x 2 universes and 1 vertex x 3 universes were tried: >10 million transitions each, TLC ran out of
+    # memory printing them; pools of that size are covered by the simulated behaviours below)
     thorough = [ST.cfg("unis-2v2u", **UNI),
-                ST.cfg("unis-3v2u", **{**UNI, "NV": 3, "InitBV": 2}),
-                ST.cfg("unis-1v3u", **{**UNI, "NV": 1, "NU": 3, "NLaw": 3, "InitBV": 1, "InitBU": 1})]
+                ST.cfg("unis-3v1u", **{**UNI, "NV": 3, "NU": 1, "NLaw": 1, "InitBV": 2})]
     mandatory = [lambda c: c.startswith("urem:member0"), lambda c: c.startswith("orem:member0"),
                  lambda c: "self-member" in c, lambda c: c.startswith("uadd:member1"),
                  lambda c: c.startswith("vnew:") and "dup" in c, lambda c: c.startswith("unew:") and "dup" in c,
